@@ -74,6 +74,19 @@ pub struct Tr<'a> {
     pub subst: BTreeMap<String, Ty>,
     /// this function is translated with a leading fuel parameter and an `option` result
     pub fuel: bool,
+    /// the result is an `option` (None = panic, or fuel exhausted when `fuel`); implied by `fuel`
+    pub partial: bool,
+    /// set when a panicking construct / a call of a partial function is met while `partial` is false (retried as partial)
+    pub needs_partial: bool,
+    /// the body uses an operation whose meaning depends on the width of usize (`checked_*` / `saturating_*` on usize, or calls such a
+    /// function): the definition takes the width as the implicit `{U__ : Casts.UsizeW}`
+    pub usize_w: std::cell::Cell<bool>,
+    /// values of the abstracted items of the callee of a trait-qualified static call (`Trait::<A>::f(..)`): (callee key, values)
+    pub assoc_override: std::cell::RefCell<Option<(String, Vec<String>)>>,
+    /// the kinds of panic sites translated in this function (`assert!`, `slice index`, `call of f`, ..)
+    pub panic_sites: BTreeSet<String>,
+    /// names of variables / struct fields of slice (list) type: `name[i]` on them can panic (for the syntactic effect analysis)
+    pub slice_names: std::cell::RefCell<BTreeSet<String>>,
     /// set when a loop / a call of a fuelled function is met while `fuel` is false (the caller retries with fuel)
     pub needs_fuel: bool,
     /// the non-fuel pass met `opt.unwrap()`: retried with fuel, where it is an exit with None
@@ -383,6 +396,8 @@ struct EffVisitor<'m> {
     /// identifier of the current `Self` type
     self_name: Option<String>,
     unwrap_is_exit: bool,
+    /// names of variables / fields of slice (list) type: indexing them can panic
+    slice_names: BTreeSet<String>,
 }
 
 impl<'m> EffVisitor<'m> {
@@ -473,9 +488,26 @@ impl<'ast, 'm> Visit<'ast> for EffVisitor<'m> {
                 None => {}
             }
         }
-        if n == "unwrap" && i.args.is_empty() && self.unwrap_is_exit && !matches!(&*i.receiver, Expr::MethodCall(r) if r.method == "try_into") {
+        if ((n == "unwrap" && i.args.is_empty()) || (n == "expect" && i.args.len() == 1)) && !matches!(&*i.receiver, Expr::MethodCall(r) if r.method == "try_into") {
             // in a fuelled function `opt.unwrap()` leaves the function with None (no value) when opt is None
             self.eff.ret = true;
+        }
+        if n == "copy_from_slice" && i.args.len() == 1 {
+            // on a list (`list[a..b].copy_from_slice(..)`): panics when the lengths differ / the range is outside: control flow
+            // (on a local array with literal bounds the lengths are checked at translation time)
+            if let Expr::Index(ix) = &*i.receiver {
+                let name = match &*ix.expr {
+                    Expr::Path(p) => p.path.get_ident().map(|x| x.to_string()),
+                    Expr::Field(f) => match &f.member {
+                        Member::Named(n) => Some(n.to_string()),
+                        _ => None,
+                    },
+                    _ => None,
+                };
+                if name.map_or(false, |n| self.slice_names.contains(&n)) {
+                    self.eff.ret = true;
+                }
+            }
         }
         if n == "for_each" && i.args.len() == 1 {
             // `place.iter_mut().for_each(|v| ..)` writes the place
@@ -524,8 +556,15 @@ impl<'ast, 'm> Visit<'ast> for EffVisitor<'m> {
                 } else {
                     self.fuel_names.contains(&n)
                 };
+                // `Trait::<A>::name(..)` resolved to the impl of the current Self type (trait-qualified static call)
+                let via_trait = segs.len() >= 2 && segs[segs.len() - 2] != "Self" && self.self_name.is_some();
+                let hit = hit || (via_trait && self.fuel_names.contains(&format!("{}::{}", self.self_name.as_ref().unwrap(), n)) && segs[segs.len() - 2].chars().next().map_or(false, |c| c.is_uppercase()) && matches!(p.path.segments[segs.len() - 2].arguments, PathArguments::AngleBracketed(_)));
                 if hit {
                     self.eff.ret = true;
+                }
+                if via_trait && matches!(p.path.segments[segs.len() - 2].arguments, PathArguments::AngleBracketed(_)) {
+                    let k2 = format!("{}::{}", self.self_name.as_ref().unwrap(), n);
+                    self.mutargs(&k2, i.args.iter());
                 }
                 let key = if segs.len() >= 2 && segs[segs.len() - 2] != "Self" {
                     format!("{}::{}", segs[segs.len() - 2], n)
@@ -538,6 +577,25 @@ impl<'ast, 'm> Visit<'ast> for EffVisitor<'m> {
             }
         }
         visit::visit_expr_call(self, i);
+    }
+    fn visit_expr_index(&mut self, i: &'ast ExprIndex) {
+        // `list[i]` panics out of range: control flow (the function is partial)
+        if !matches!(&*i.index, Expr::Range(_)) {
+            let name = match &*i.expr {
+                Expr::Path(p) => p.path.get_ident().map(|x| x.to_string()),
+                Expr::Field(f) => match &f.member {
+                    Member::Named(n) => Some(n.to_string()),
+                    _ => None,
+                },
+                _ => None,
+            };
+            if let Some(n) = name {
+                if self.slice_names.contains(&n) {
+                    self.eff.ret = true;
+                }
+            }
+        }
+        visit::visit_expr_index(self, i);
     }
     fn visit_expr_reference(&mut self, i: &'ast ExprReference) {
         if i.mutability.is_some() {
@@ -561,7 +619,7 @@ impl<'ast, 'm> Visit<'ast> for EffVisitor<'m> {
     }
     fn visit_macro(&mut self, m: &'ast Macro) {
         let n = m.path.segments.last().map(|s| s.ident.to_string()).unwrap_or_default();
-        if n == "panic" || n == "unreachable" || n == "unimplemented" || n == "todo" {
+        if n == "panic" || n == "unreachable" || n == "unimplemented" || n == "todo" || n == "assert" || n == "assert_eq" || n == "assert_ne" {
             self.eff.ret = true;
         }
     }
@@ -604,12 +662,12 @@ impl<'a> Tr<'a> {
     }
 
     pub fn effects_expr(&self, e: &Expr) -> Eff {
-        let mut v = EffVisitor { eff: Eff::default(), mut_methods: &self.mut_methods, fuel_names: &self.fuel_names, mutarg_names: &self.mutarg_names, self_name: self.self_ty.as_deref().map(|s| s.rsplit('.').next().unwrap().split('<').next().unwrap().to_string()), unwrap_is_exit: self.fuel };
+        let mut v = EffVisitor { eff: Eff::default(), mut_methods: &self.mut_methods, fuel_names: &self.fuel_names, mutarg_names: &self.mutarg_names, self_name: self.self_ty.as_deref().map(|s| s.rsplit('.').next().unwrap().split('<').next().unwrap().to_string()), unwrap_is_exit: self.fuel, slice_names: self.slice_names.borrow().clone() };
         v.visit_expr(e);
         v.eff
     }
     pub fn effects_stmts(&self, s: &[Stmt]) -> Eff {
-        let mut v = EffVisitor { eff: Eff::default(), mut_methods: &self.mut_methods, fuel_names: &self.fuel_names, mutarg_names: &self.mutarg_names, self_name: self.self_ty.as_deref().map(|s| s.rsplit('.').next().unwrap().split('<').next().unwrap().to_string()), unwrap_is_exit: self.fuel };
+        let mut v = EffVisitor { eff: Eff::default(), mut_methods: &self.mut_methods, fuel_names: &self.fuel_names, mutarg_names: &self.mutarg_names, self_name: self.self_ty.as_deref().map(|s| s.rsplit('.').next().unwrap().split('<').next().unwrap().to_string()), unwrap_is_exit: self.fuel, slice_names: self.slice_names.borrow().clone() };
         for x in s {
             v.visit_stmt(x);
         }
@@ -654,6 +712,9 @@ impl<'a> Tr<'a> {
                     return Err(unsupported(p, &format!("identifier pattern `{}` that may name a constant or an enum variant (write the path, e.g. `Enum::{}`)", n, n)));
                 }
                 let c = self.fresh(&n);
+                if matches!(ty, Ty::Slice(_)) {
+                    self.slice_names.borrow_mut().insert(n.clone());
+                }
                 env.push(&n, var_mut(c.clone(), ty.clone(), i.mutability.is_some()));
                 Ok(c)
             }
